@@ -97,11 +97,19 @@ class MemFile(io.StringIO):
         return self._final if self._closed_flag else self.getvalue()
 
 
-def make_open(store: dict):
+def make_open(store: dict, existing: Optional[Dict[str, str]] = None):
+    """existing: content that is already at a path when the session starts (an earlier session's log).  Mode 'w' truncates it,
+    mode 'a' keeps it - as a real file system does."""
     def _open(path, mode='r', *a, **k):
-        if 'w' not in mode and 'a' not in mode:
+        if 'w' not in mode and 'a' not in mode and 'x' not in mode:
             raise prims.InternalError(f'harness open() used for reading {path}')
-        return MemFile(store, str(path))
+        f = MemFile(store, str(path))
+        old = (existing or {}).get(str(path))
+        if 'x' in mode and old is not None:
+            raise FileExistsError(str(path))
+        if 'a' in mode and old is not None:
+            io.StringIO.write(f, old)
+        return f
     return _open
 
 
@@ -196,6 +204,7 @@ def execute(setup: Callable[[prims.Sched], Any], policy: Optional[prims.Policy] 
     prims.FALLTHROUGH.clear()
     s = prims.Sched(policy, horizon=horizon, all_visible=all_visible, record_ops=record_ops)
     prims.CUR = s
+    prims.reset_import_time_objects()
     try:
         collect = setup(s)
         s.run()
